@@ -130,8 +130,8 @@ impl Scenario for C08 {
     const LEVEL: &'static str = "exploration";
     fn runs(tier: Tier) -> u64 {
         match tier {
-            Tier::Quick => 150_000,
-            Tier::Thorough => 4_000_000,
+            Tier::Quick => 500_000,
+            Tier::Thorough => 12_000_000,
         }
     }
     fn rule() -> &'static str {
